@@ -41,6 +41,8 @@ def premise_class(rv):
         return 'bool'
     if isinstance(v, float) and (math.isnan(v) or math.isinf(v) or 'e' in repr(v)):
         return 'float-shape'
+    if isinstance(v, str) and any(ch.isspace() and ch not in ' \t\n\r' for ch in v):
+        return 'foreign-space'
     if isinstance(v, str) and v.strip() == '' and v != '':
         return 'blank'
     if isinstance(v, str) and v != v.strip():
@@ -70,13 +72,18 @@ def run(rep):
     finally:
         m.close()
     ndiff = 0
-    for (c, v), a, b in zip(pairs, impl, mo):
+    invalid_acc = {i for (i, c, v), ok in zip(acc, xv) if ok != '1'}
+    for i, ((c, v), a, b) in enumerate(zip(pairs, impl, mo)):
         bm = b.split(';')[0]
         am = a[0] if a[0] in ('ok', 'TypeError', 'ValueError') else 'other'
         if am != bm:
             ndiff += 1
-            if ndiff <= 5:
-                rep.violation('%s(%s): implementation %s, model lib_check %s' % (c, v, a[0], bm), {'correspondence': 'impl<->lib_check', 'class': c, 'value': v}, found_input=False)
+            if ndiff <= 8:
+                if i in invalid_acc:
+                    rep.violation('%s accepts %s and emits %r, which is not valid for %s (the pinned model refuses it with %s)' % (c, v, a[1], xsd_of.get(c), bm),
+                                  {'class': c, 'value': v, 'emitted': a[1], 'model': bm})
+                else:
+                    rep.violation('%s(%s): implementation %s, model lib_check %s' % (c, v, a[0], bm), {'correspondence': 'impl<->lib_check', 'class': c, 'value': v}, found_input=False)
     unsound = {}
     for (i, c, v), ok in zip(acc, xv):
         if ok != '1':
